@@ -16,7 +16,6 @@ the real library (Config.build) and the native reference (exec/eval with plain g
 import ast
 import builtins
 import dis
-import hashlib
 import json
 import os
 import signal
